@@ -10,7 +10,9 @@ package main
 
 import (
 	"bytes"
+	"compress/gzip"
 	"fmt"
+	"io"
 	"os"
 	"path/filepath"
 	"sort"
@@ -108,10 +110,46 @@ func atlasReplay(r *atlasRun, o *atlasObs, choices []int, extra map[string]any) 
 func expectedOut(r *atlasRun, i int) ([]byte, bool) {
 	r.Fl.Apply()
 	defer Flags{}.Apply()
+	if want, ok := expectedOutIndependent(payloadBytes(r.Hosts[i].Payload, r.Hosts[i].Name)); ok {
+		return want, true
+	}
 	var out bytes.Buffer
 	fr := &c06FR{data: payloadBytes(r.Hosts[i].Payload, r.Hosts[i].Name), ext: ".gz"}
 	if err := ProcessMongoLogFile(fr, "x.gz", &out, nil); err != nil {
 		return out.Bytes(), false
+	}
+	return out.Bytes(), true
+}
+
+// expectedOutIndependent: the redaction of a payload computed WITHOUT the tool's reader: the archive is
+// decompressed by the harness (all members), split into lines, and each line that is a JSON object is redacted
+// on its own.  ok=false for payloads the tool must refuse (not gzip, over-long line) — the caller falls back.
+func expectedOutIndependent(payload []byte) ([]byte, bool) {
+	zr, err := gzip.NewReader(bytes.NewReader(payload))
+	if err != nil {
+		return nil, false
+	}
+	text, err := io.ReadAll(zr)
+	if err != nil {
+		return nil, false
+	}
+	var out bytes.Buffer
+	for _, l := range strings.Split(string(text), "\n") {
+		l = strings.TrimSuffix(l, "\r")
+		if len(l) >= 64*1024 {
+			return nil, false
+		}
+		if strings.TrimSpace(l) == "" {
+			continue
+		}
+		o, ok, pv := redactLine(l)
+		if pv != nil {
+			return nil, false
+		}
+		if ok {
+			out.WriteString(o)
+			out.WriteByte('\n')
+		}
 	}
 	return out.Bytes(), true
 }
@@ -218,6 +256,75 @@ func c16Run(c *Ctx) {
 	// the full behaviour tree: request log and exit status must follow the model on the failure side as well
 	atlasExplore(c, atlasGenOpts{MaxHosts: 3, HostNames: 1}, 1, fsets[:1], true, false, visit)
 	atlasExplore(c, atlasGenOpts{MaxHosts: 2, HostNames: 1}, 1, fsets[:1], false, true, visit)
+	c16CrashHistories(c, visit)
+}
+
+// c16CrashHistories: histories of two runs over one TMPDIR.  Run 1 is killed (SIGKILL: no clean-up code runs)
+// when its k-th request arrives, for EVERY k; run 2 asks for the same project, cluster and window and is served
+// other (shorter or longer) payloads.  Whatever run 1 left behind, run 2 must behave like a first run: the same
+// oracles as for single runs apply to it.
+func c16CrashHistories(c *Ctx, visit atlasVisit) {
+	base := freshDir(c.Scratch, "crash")
+	names := []string{"zeta-02.example.net", "alpha-00.example.net", "midway-01.example.net"}
+	kind := func(n string) int {
+		for i, k := range payloadKinds {
+			if k == n {
+				return i
+			}
+		}
+		return 0
+	}
+	var no int64
+	maxH := 2
+	if c.Thorough() {
+		maxH = 3
+	}
+	for n := 1; n <= maxH; n++ {
+		for _, win := range []bool{true, false} {
+			for _, pk := range [][2]string{{"large", "short"}, {"short", "large"}, {"multi-member", "valid"}, {"valid", "valid"}} {
+				for k := 1; k <= 2+2*n+1; k++ {
+					no++
+					if !c.Mine(no) {
+						continue
+					}
+					mk := func(p string, killAt int) *atlasRun {
+						r := &atlasRun{Window: win, Cluster: phasePlan{Un: AnsDigest, Au: AnsOK}, KillAt: killAt}
+						for i := 0; i < n; i++ {
+							r.Hosts = append(r.Hosts, hostPlan{Name: names[i], Port: true, Payload: kind(p), phasePlan: phasePlan{Un: AnsDigest, Au: AnsOK}})
+						}
+						return r
+					}
+					dir := freshDir(base, "h")
+					r1 := mk(pk[0], k)
+					o1, err := execAtlasCLI(c, r1, dir)
+					if err != nil {
+						c.HarnessError("crash history: %v", err)
+						return
+					}
+					killed := o1.Exit == 128 || o1.Exit == -1
+					// run 2 in the SAME sandbox (same TMPDIR, same output directory), nothing cleaned in between
+					os.Remove(filepath.Join(dir, "requests.jsonl"))
+					r2 := mk(pk[1], 0)
+					o2, err := execAtlasCLI(c, r2, dir)
+					if err != nil {
+						c.HarnessError("crash history: %v", err)
+						return
+					}
+					c.Eval(2)
+					c.P.Traces++
+					c.P.Transitions += int64(len(o1.Reqs) + len(o2.Reqs))
+					c.Count("crash_histories", 1)
+					if killed {
+						c.Count("crash_histories_run1_killed", 1)
+					}
+					c.Distinct(fmt.Sprintf("crash|%d|%v|%v|%d", n, win, pk, k))
+					o2.Level = "cli"
+					r2.Desc = append(r2.Desc, fmt.Sprintf("second run after a run killed at request %d (%d files left in TMPDIR)", k, len(o1.TmpLeft)))
+					visit(r2, o2, []int{n, k})
+				}
+			}
+		}
+	}
 }
 
 func firstDiffCtx(a, b []byte) string {
@@ -371,6 +478,7 @@ func c20Run(c *Ctx) {
 		mh = 3
 	}
 	atlasExplore(c, atlasGenOpts{MaxHosts: mh, HostNames: 0, Supplies: true}, 1, []Flags{{}}, false, true, visit)
+	c20UsageRuns(c)
 	// child environment / argv files are not artefacts of the run; the sandbox directory of the last
 	// run is scanned once more as a whole (cwd, HOME) for anything that is not the harness' own script
 	_ = os.Remove(filepath.Join(c.Scratch, "atlas", "run", "script.json"))
@@ -384,25 +492,82 @@ func c20Run(c *Ctx) {
 	}
 }
 
+// c20UsageRuns: runs that end in a usage message or an argument error, for every way of supplying the key pair.
+// Help texts, flag defaults and "invalid argument" messages are produced by the flag library from what the program
+// registered; the private key must not be in any of them.
+func c20UsageRuns(c *Ctx) {
+	if c.Shard != 0 {
+		return
+	}
+	dir := freshDir(c.Scratch, "usage")
+	os.WriteFile(filepath.Join(dir, "in.log"), []byte(c06Alphabet()[0].Text+"\n"), 0o644)
+	atlas := []string{"--atlasProjectId", atlasProject, "--atlasClusterName", atlasCluster, "--outputFile", "out.log"}
+	tails := [][]string{
+		{"--help"}, {"-h"}, {"--nosuchflag"}, {"--atlasLogStartDate", "not-a-number", "--atlasLogEndDate", "5"}, {"--atlasLogStartDate"},
+		{"--atlasLogStartDate", "5"}, {"extra1", "extra2"}, {"in.log"}, {"--redactFieldsRegexp", "(", "--redactFieldNames", "a.b"}, {"--encrypt"}, {"--outputFile"},
+	}
+	tops := [][]string{{"--help"}, {"help", "redact"}, {"help"}, {"nosuchcommand"}, {"redact", "--help"}, {"decrypt", "--help"}, {"decrypt"}, {"completion", "bash"}, {"--version"}, {"version"}, {}}
+	for supply := 0; supply < 4; supply++ {
+		var keyArgs, env []string
+		if supply == 0 || supply == 2 {
+			keyArgs = append(keyArgs, "--atlasPublicKey", atlasPub)
+		} else {
+			env = append(env, "ATLAS_PUBLIC_KEY="+atlasPub)
+		}
+		if supply == 0 || supply == 3 {
+			keyArgs = append(keyArgs, "--atlasPrivateKey", atlasPriv)
+		} else {
+			env = append(env, "ATLAS_PRIVATE_KEY="+atlasPriv)
+		}
+		env = append(env, "VERIF_MODE=child-cli") // no script: the transport refuses everything
+		var runs [][]string
+		for _, t := range tails {
+			runs = append(runs, append(append(append([]string{"redact"}, atlas...), keyArgs...), t...))
+			runs = append(runs, append(append([]string{"redact"}, keyArgs...), t...))
+		}
+		if supply == 1 {
+			runs = append(runs, tops...) // keys only in the environment: any command at all
+		}
+		for _, args := range runs {
+			res, err := runCLI(CLIRun{Bin: c.Self, Args: args, Dir: dir, Env: env})
+			if err != nil {
+				c.HarnessError("usage run: %v", err)
+				return
+			}
+			c.Eval(1)
+			c.Count("usage_runs", 1)
+			c.Distinct(fmt.Sprintf("usage|%d|%v", supply, args))
+			for name, text := range map[string]string{"stdout": string(res.Stdout), "stderr": string(res.Stderr)} {
+				// the key given ON the command line may be echoed by an error about that very argument list only if
+				// the program prints its argv; neither cobra nor the program does, so no exception is made
+				if f := findKey(text); f != "" {
+					c.Violate("privkey:cli:usage:in-"+name+":"+f, fmt.Sprintf("key supply %d, arguments %v (exit %d): the private key (%s) appears in %s: %s", supply, args, res.Exit, f, name, trunc(text[strings.Index(text, keyForms()[f])-min(200, strings.Index(text, keyForms()[f])):], 400)), int64(len(args)),
+						map[string]any{"kind": "usage-run", "args": args, "key_supply": supply}, nil)
+				}
+			}
+		}
+	}
+}
+
 func atlasPost(c *Ctx, m *Part) {}
 
 func init() {
-	tree := "the tree of distinguishable server behaviours, generated lazily by the explorer: for the cluster lookup and then for each host in order, the answer to the unauthenticated request {digest challenge, 200 without challenge, Basic challenge, 401 without header, 403, 404, 500 echoing the request headers, connection reset, malformed digest challenge} and, after a challenge, the answer to the authenticated request {200, 401, 403, 404, 500-echo, connection reset, 200 with the body cut after 0 / 1 / half / all-but-one bytes}; requests after a failing one are never generated because the model says none is sent"
+	tree := "the tree of distinguishable server behaviours, generated lazily by the explorer: for the cluster lookup and then for each host in order, the answer to the unauthenticated request {digest challenge, 200 without challenge, Basic challenge, 401 without header, 403, 404, 500 echoing the request headers, connection reset, malformed digest challenge} and, after a challenge, the answer to the authenticated request {200, 401, 403, 404, 500-echo, connection reset, 200 with the body cut after 0 / 1 / half / all-but-one bytes}; as deviations, a 401 that offers a second challenge (Digest then Basic, Basic then Digest; after a digest response: a fresh Digest plus Basic, or Basic only); the model says no request follows a failing one, so what a REPEATED request gets {same answer, cooperative flow, 500-echo, connection reset, 404, Basic challenge} is enumerated on demand, exactly for the executions in which the client does ask again"
 	register(&PropDef{
 		ID: "C16", Level: "model_checking",
-		Rule:        "success side of " + tree + " (every request challenged or not) x 1..5 hosts (two name sets, one whose order differs from sorted order) x ports {all, none, mixed} x window flags {none, both} x payload kinds {valid, gzip of nothing, multi-member, 1500 lines, zero bytes, not gzip, over-long line, blank/garbage lines} as deviations (quick <=1, thorough <=2) x redaction flag sets, at the library level (DownloadClusterLogs + ProcessMongoLogFile + DeleteClusterLogs as main() calls them) and through the real main() in a child process; plus the full tree with faults (<=1 deviation) for 3 / 2 hosts. Reference model (DESIGN.md 2.9): exact request sequence (one cluster GET, then per host in connection-string order one download, each preceded at most by its challenge round), all to https://cloud.mongodb.com, project / cluster / host in the path, startDate / endDate equal to the flags or [now-7d, now]; every Authorization header must be a digest response that verifies against the key pair; exit status class; temp files hold the payload bytes verbatim; <out>.<i> equals the redaction of payload i under the flags and nothing else is in the output directory. states = scripts, transitions = requests, every script executed on the implementation",
+		Rule:        "success side of " + tree + " (every request challenged or not) x 1..5 hosts (two name sets, one whose order differs from sorted order) x ports {all, none, mixed} x window flags {none, both} x payload kinds {valid, gzip of nothing, multi-member, 1500 lines, zero bytes, not gzip, over-long line, blank/garbage lines, compressed bytes without 0x0A, members split inside a line, one line} as deviations (quick <=1, thorough <=2) x redaction flag sets, at the library level (DownloadClusterLogs + ProcessMongoLogFile + DeleteClusterLogs as main() calls them) and through the real main() in a child process; plus the full tree with faults (<=1 deviation) for 3 / 2 hosts; plus crash histories through the CLI: run 1 killed (SIGKILL) at EVERY request index, run 2 over the same TMPDIR, window and output directory with other payloads must behave like a first run. Reference model (DESIGN.md 2.9): exact request sequence (one cluster GET, then per host in connection-string order one download, each preceded at most by its challenge round), all to https://cloud.mongodb.com, project / cluster / host in the path, startDate / endDate equal to the flags or [now-7d, now]; every Authorization header must be a digest response that verifies against the key pair; exit status class; temp files hold the payload bytes verbatim; <out>.<i> equals the redaction of payload i under the flags - computed without the tool's reader: harness-side decompression of all members, line split, one-line redactions - and nothing else is in the output directory. states = scripts, transitions = requests, every script executed on the implementation",
 		Assumptions: []string{"SRV connection strings need DNS: only 'no credential leaves, nothing foreign is contacted' is checked for them", "net/http, TLS and sockets below http.DefaultTransport are trusted", "the redaction flags reach the child through the argv wiring that C01's CLI pass ties to the in-process setters"},
 		Run:         c16Run, Post: atlasPost,
 	})
 	register(&PropDef{
 		ID: "C17", Level: "fault_enumeration",
-		Rule:        tree + " x 1..4 hosts x cluster description kinds {standard, SRV, not JSON, no connection string, malformed string} x payload kinds x output faults {<out>.<k> is a directory for each k, output directory missing} as deviations (quick <=1, thorough <=2), at the library level and (<=1 deviation, 3 / 4 hosts) through the real main() in a child process with its own TMPDIR. Oracle: after the function returns / the process exits, TMPDIR holds no file - on success and on every failure. distinct = distinct scripts",
+		Rule:        tree + " x 1..4 hosts x cluster description kinds {standard, SRV, not JSON, no connection string, malformed string} x payload kinds x output faults {<out>.<k> is a directory for each k, output directory missing} as deviations (quick <=1, thorough <=2), at the library level and (<=1 deviation, 3 / 4 hosts) through the real main() in a child process with its own TMPDIR; the full tree for up to 2 hosts again with TMPDIR spelled with a trailing slash, a "/./" segment, "//" and through a symbolic link. Oracle: after the function returns / the process exits, TMPDIR holds no file - on success and on every failure. distinct = distinct scripts",
 		Assumptions: []string{"TMPDIR is the only place downloads are stored (os.CreateTemp with the default directory)"},
 		Run:         c17Run,
 	})
 	register(&PropDef{
 		ID: "C20", Level: "fault_enumeration",
-		Rule:        tree + " x 1..3 hosts x deviations (cluster description kinds, payload kinds, output faults) x ways of supplying the key pair {both flags, both environment, public flag + private environment, public environment + private flag}, at the library level and through the real main() in a child process. Oracle: the private-key canary (characters that change under URL-, base64- and JSON-encoding) in the forms verbatim / URL-encoded / path-escaped / base64 / base64url / base64(public:private) / JSON-escaped occurs in no request line, header or body, not in stdout, stderr, output files, files left in TMPDIR or the sandbox; no Authorization header is sent before a digest challenge was received, every Authorization header is a digest response, every request goes to https://cloud.mongodb.com. distinct = distinct scripts",
+		Rule:        tree + " x 1..3 hosts x deviations (cluster description kinds, payload kinds, output faults) x ways of supplying the key pair {both flags, both environment, public flag + private environment, public environment + private flag}, at the library level and through the real main() in a child process; plus ~100 runs that end in a usage text or an argument error (help, unknown flag, malformed / missing values, extra arguments, other sub-commands) for every way of supplying the key pair. Oracle: the private-key canary (characters that change under URL-, base64- and JSON-encoding) in the forms verbatim / URL-encoded / path-escaped / base64 / base64url / base64(public:private) / JSON-escaped occurs in no request line, header or body, not in stdout, stderr, output files, files left in TMPDIR or the sandbox; no Authorization header is sent before a digest challenge was received, every Authorization header is a digest response, every request goes to https://cloud.mongodb.com. distinct = distinct scripts",
 		Assumptions: []string{"HTTP redirects and proxies are not among the scripted behaviours", "the digest response itself (an MD5 over the key) is the sanctioned use"},
 		Run:         c20Run,
 	})
